@@ -248,6 +248,17 @@ func evalOne(str string, preds SPred, stats *SS) []evalIssue {
 			if preds&SCanon != 0 {
 				canon := ver.Canon(want)
 				got := safeVector(obj)
+				// the returned string must not change when other objects are serialised afterwards
+				var raw string
+				if pv := Safely(func() { raw = obj.Vector() }); pv == nil {
+					keep := strings.Clone(raw)
+					for _, oth := range otherObjs(p) {
+						Safely(func() { _ = oth.Vector() })
+					}
+					if raw != keep {
+						issues = append(issues, evalIssue{"v" + ver.Name + "/Vector/returned-string-changed-later", keep, strings.Clone(raw)})
+					}
+				}
 				if got != canon {
 					issues = append(issues, evalIssue{"v" + ver.Name + "/canonical-form", canon, got})
 				} else if canon != str {
@@ -348,4 +359,29 @@ func init() {
 		}
 		return strings.Join(out, " | ")
 	}
+}
+
+var (
+	otherMu  sync.Mutex
+	otherMap = map[*parserImpl][]vecObj{}
+)
+
+// otherObjs: two fixed objects per version (a minimal and a maximal vector) serialised after the object under
+// test to reveal a Vector() buffer that is recycled.
+func otherObjs(p *parserImpl) []vecObj {
+	otherMu.Lock()
+	defer otherMu.Unlock()
+	if o, ok := otherMap[p]; ok {
+		return o
+	}
+	var out []vecObj
+	ver := p.ver
+	a := definedRot(ver, 3)
+	for _, present := range []func(int) bool{func(i int) bool { return ver.Mandatory(i) }, nil} {
+		if o, err := p.parse(ver.Join(elemsOf(ver, a, present))); err == nil && o != nil {
+			out = append(out, o)
+		}
+	}
+	otherMap[p] = out
+	return out
 }
